@@ -150,7 +150,7 @@ CFG = {
             "over the usable region including its border (|dlon| = 3.5 deg for tmerc/utm, |lat| = 85 merc, cone-side latitudes, standard parallels, lat_0); one case = one definition pair with 8 positions, "
             "each run through A->B, B->A, A->B on ONE reused forward and ONE reused inverse transformer per line (plus a fresh-per-call control); "
             "plus WKT-defined systems (ESRI Mercator_Auxiliary_Sphere, and the testData PROJCS texts of the supported kinds); plus one `cl` line per parameterisation: the closure pair of "
-            "sr.Transformers() obtained once, 8 in-region positions, then rejected calls (poles, NaN, out of range), then the 8 positions again, against freshly obtained closures; plus `tw` lines (route decision of NewTransform): a reference whose datum code is the lower-case wgs84 (WKT GEOGCS/PROJCS on D_WGS_1984 / WGS_1984, or +datum=wgs84) against a reference on a 3-/7-parameter datum (named or +towgs84), tmerc/merc/lcc/aea/eqdc, each compared bit for bit on all three legs with its twin pair written with +datum=WGS84 (>= 30 compared lines per side per run, checked); plus `cc` lines (tmerc/lcc/aea/merc/longlat, fully specified, no datum shift: the definitions for which the unchanged tree is write-free per call under go -race): 8 goroutines share one transformer pair, every answer compared with the sequential one. distinct = distinct input line; non-trivial = every class",
+            "sr.Transformers() obtained once, 8 in-region positions, then rejected calls (poles, NaN, out of range), then the 8 positions again, against freshly obtained closures; plus `tw` lines (route decision of NewTransform): a reference whose datum code is the lower-case wgs84 (WKT GEOGCS/PROJCS on D_WGS_1984 / WGS_1984, or +datum=wgs84) against a reference on a 3-/7-parameter datum (named or +towgs84), tmerc/merc/lcc/aea/eqdc, each compared bit for bit on all three legs with its twin pair written with +datum=WGS84 (>= 30 compared lines per side per run, checked); plus `il` lines (state carried between DIFFERENT transformers): two projected systems with the same projection parameters on different built-in ellipsoids (or a UTM zone and a transverse Mercator on its central meridian), positions exactly on lat_0 / lat_1 / lat_2, the second system's three legs run alone and then in turn with the first one's on the same positions - judged by Spec and model, and compared bit for bit with the answers alone; plus `cc` lines (tmerc/lcc/aea/merc/longlat, fully specified, no datum shift: the definitions for which the unchanged tree is write-free per call under go -race): 8 goroutines share one transformer pair, every answer compared with the sequential one. distinct = distinct input line; non-trivial = every class",
     "timeout": {"quick": 900, "thorough": 3000},
     "trivial_class": r"^$",
 }
